@@ -53,17 +53,17 @@ __CPROVER_ensures((X_DELIVERED && g_pipe_close_calls == OLD(g_pipe_close_calls) 
     || (g_rr.put_calls == OLD(g_rr.put_calls) && X_DISCONN && g_pipe_recv_calls == OLD(g_pipe_recv_calls) && __CPROVER_was_freed(OLD(XM)))
     || (g_rr.put_calls == OLD(g_rr.put_calls) && g_pipe_close_calls == OLD(g_pipe_close_calls) && X_DROPPED && __CPROVER_was_freed(OLD(XM))))
 /* disconnected ==> GARBAGE: fewer than ttl complete words and none of them is a request id */
-__CPROVER_ensures(X_DISCONN ==> (g_pipe_close_last == XP->pipe && XOLDLEN / 4 + XR_MUT2V < (size_t) XS->ttl.v && RR_NO_END_BELOW(XOLDLEN / 4)))
+__CPROVER_ensures(X_DISCONN ==> (g_pipe_close_last == XP->pipe && (XOLDLEN >> 2) + XR_MUT2V < (size_t) XS->ttl.v && RR_NO_END_BELOW((XOLDLEN >> 2))))
 /* dropped ==> TOOMANY: the first ttl words exist and none is a request id; NOT disconnected, receive re-armed */
-__CPROVER_ensures(X_DROPPED ==> (g_pipe_recv_pipe == XP->pipe && g_pipe_recv_aio == &XP->aio_recv && XOLDLEN / 4 >= (size_t) XS->ttl.v && RR_NO_END_BELOW(XS->ttl.v)))
+__CPROVER_ensures(X_DROPPED ==> (g_pipe_recv_pipe == XP->pipe && g_pipe_recv_aio == &XP->aio_recv && (XOLDLEN >> 2) >= (size_t) XS->ttl.v && RR_NO_END_BELOW(XS->ttl.v)))
 /* delivered ==> ACCEPT: header = [pipe id][w_0..w_n] with n+1 <= ttl words moved, at most 64 bytes;
  * w_n is the first word with the high bit; body = the rest, unchanged; handed up to the socket's receive queue */
-__CPROVER_ensures(X_DELIVERED ==> (X_HL >= 8 && X_HL % 4 == 0 && X_HL <= MSG_HDRCAP && X_HL / 4 - 1 <= (size_t) XS->ttl.v - XR_MUT1V
+__CPROVER_ensures(X_DELIVERED ==> (X_HL >= 8 && (X_HL & 3) == 0 && X_HL <= MSG_HDRCAP && (X_HL >> 2) - 1 <= (size_t) XS->ttl.v - XR_MUT1V
     && BE32(HDR(OLD(XM))) == g_pipe_id && OLD(XM)->m_pipe == g_pipe_id
     && X_HL - 4 <= XOLDLEN && OLD(XM)->m_body.ch_len == XOLDLEN - (X_HL - 4)
     && g_rr.put_q == XS->urq && g_rr.put_aio == &XP->aio_putq && g_rr.put_msg == OLD(XM) && XP->aio_putq.a_msg == OLD(XM)))
 __CPROVER_ensures((X_DELIVERED && g_k < X_HL - 4) ==> HDR(OLD(XM))[4 + g_k] == g_b)
-__CPROVER_ensures(X_DELIVERED ==> (RR_NO_END_BELOW(X_HL / 4 - 2) && (g_k == X_HL - 8 ==> RR_HB(g_b))))
+__CPROVER_ensures(X_DELIVERED ==> (RR_NO_END_BELOW((X_HL >> 2) - 2) && (g_k == X_HL - 8 ==> RR_HB(g_b))))
 __CPROVER_ensures((X_DELIVERED && g_k >= X_HL - 4 && g_k < XOLDLEN) ==> OLD(XM)->m_body.ch_ptr[g_k - (X_HL - 4)] == g_b)
 ;
 #endif
